@@ -6,7 +6,7 @@ CONSTANTS MaxLines, EmitRows, PoolName
 VARIABLES A, E
 
 Pool12 == { <<"a">>, <<"b">>, <<"a", "1">>, <<"a", "1", "2">>, <<"b", "2">>, <<"1", "a", "2">>,
-            <<" ", "a">>, <<"a", " ">>, <<"R", "a">>, <<"I", "a">>, <<"I", "b">>, <<>> }
+            <<" ", "a">>, <<"a", " ">>, <<"R", "a">>, <<"I", "a">>, <<" ">>, <<>> }
 Pool7  == { <<"a">>, <<"b">>, <<"a", "1">>, <<"a", "1", "2">>, <<" ", "a">>, <<"R">>, <<"I", "a">> }
 Pool3  == { <<"a">>, <<"b">>, <<"a", "1">> }
 Pool == IF PoolName = "p12" THEN Pool12 ELSE IF PoolName = "p7" THEN Pool7 ELSE Pool3
